@@ -208,6 +208,88 @@ pub fn families(prop: &str, tier: Tier) -> Vec<Family> {
     f
 }
 
+/// Scripted part of C06: a new iterator starts in mode 0 regardless of the mode set on the Scanner
+/// and of earlier iterations; mode_name reports the configured names.
+fn c06_scripted(cfg: &Cfg, ins: &[String], tables: &AtomTables, viol: &mut ViolAcc, n: &mut usize) {
+    use scnr::{MatchExtIterator, ScannerModeSwitcher};
+    let spec = match cfg.to_spec() {
+        Ok(s) => s,
+        Err(_) => return,
+    };
+    let mut sc = match bridge::catch(|| cfg.build_uncached()) {
+        Ok(Ok(sc)) => sc,
+        _ => return,
+    };
+    let model_stream = |table: &ScanTable| -> Vec<(usize, usize, usize)> {
+        let mut st = refsem::model::MState::initial();
+        let mut v = vec![];
+        while let Some(p) = st.predict_next(table) {
+            // lookahead-free configurations: exactly one admissible end
+            let e = 63 - p.adm.ends.leading_zeros() as usize;
+            v.push((p.adm.token_type, table.byte_of[p.start], table.byte_of[e]));
+            let tt = p.adm.token_type;
+            st.commit_next(&spec, e, tt);
+        }
+        v
+    };
+    let fail = |viol: &mut ViolAcc, what: String, calls: Vec<String>, input: &str| {
+        viol.add("", || Violation { key: String::new(), summary: format!("{} on {:?}: {}", cfg.show(), input, what), replay: json!({"configuration": cfg.to_json(), "input": input, "calls": calls, "disagreement": what}) });
+    };
+    // mode_name
+    for i in 0..cfg.modes.len() + 2 {
+        let want = cfg.modes.get(i).map(|m| m.name.as_str());
+        let it = sc.find_iter("ab");
+        let a = sc.mode_name(i).map(|s| s.to_string());
+        let b = it.mode_name(i).map(|s| s.to_string());
+        let wp = sc.find_iter("ab").with_positions();
+        let c = wp.mode_name(i).map(|s| s.to_string());
+        *n += 1;
+        if a.as_deref() != want || b.as_deref() != want || c.as_deref() != want {
+            fail(viol, format!("mode_name({i}) is {a:?} on the scanner, {b:?} on the iterator, {c:?} on WithPositions; configured {want:?}"), vec![format!("mode_name({i})")], "ab");
+            return;
+        }
+    }
+    for input in ins {
+        let table = ScanTable::new(&spec, input, tables);
+        let want = model_stream(&table);
+        for set_to in 0..cfg.modes.len() {
+            *n += 1;
+            let r = bridge::catch(|| {
+                sc.set_mode(set_to);
+                // partial first iteration over the same input (may switch modes)
+                let mut first = sc.find_iter(input);
+                let _ = first.next();
+                let _ = first.next();
+                let it = sc.find_iter(input);
+                let m0 = it.current_mode();
+                let toks: Vec<(usize, usize, usize)> = it.map(|m| (m.token_type(), m.start(), m.end())).collect();
+                (m0, toks, sc.current_mode())
+            });
+            match r {
+                Err(p) => {
+                    fail(viol, format!("panic: {p}"), vec![format!("scanner.set_mode({set_to})"), "find_iter(input) twice".into()], input);
+                    return;
+                }
+                Ok((m0, toks, scm)) => {
+                    if m0 != 0 || toks != want {
+                        fail(
+                            viol,
+                            format!("after scanner.set_mode({set_to}) and a partially consumed first iterator, a new iterator reports current_mode() {m0} and yields {toks:?}; an iterator starting in mode 0 yields {want:?}"),
+                            vec![format!("scanner.set_mode({set_to})"), "let mut first = scanner.find_iter(input); first.next(); first.next();".into(), "let it = scanner.find_iter(input); it.current_mode(); it.collect()".into()],
+                            input,
+                        );
+                        return;
+                    }
+                    if scm != set_to {
+                        fail(viol, format!("Scanner::current_mode() is {scm} after set_mode({set_to}) and two iterations"), vec![format!("scanner.set_mode({set_to})"), "find_iter ...".into(), "scanner.current_mode()".into()], input);
+                        return;
+                    }
+                }
+            }
+        }
+    }
+}
+
 #[derive(Default)]
 struct Acc {
     pairs: usize,
@@ -261,7 +343,7 @@ pub fn run(prop: &'static str, tier: Tier) -> ! {
             };
             for input in &fam.inputs {
                 let table = ScanTable::new(&spec, input, &tables);
-                let ctx = Ctx { cfg, spec: &spec, sc: &sc, input, table: &table, ops: &fam.ops };
+                let ctx = Ctx { key_with_scratch: tier == Tier::Thorough, cfg, spec: &spec, sc: &sc, input, table: &table, ops: &fam.ops };
                 let ex = explore(&ctx);
                 acc.pairs += 1;
                 acc.states += ex.states;
@@ -322,6 +404,20 @@ pub fn run(prop: &'static str, tier: Tier) -> ! {
         fam_json.push(json!({"family": fam.name, "what": fam.describe, "configurations": n, "inputs": fam.inputs.len(), "pairs_explored": total.pairs - before.0, "states": total.states - before.1, "transitions": total.transitions - before.2,
             "ops": format!("{:?}", fam.ops)}));
     }
+    let mut scripted = 0usize;
+    if prop == "C06" {
+        let lists = pattern_lists();
+        let cfgs = mode_graphs(2, &lists[..4], 5);
+        let ins = inputs(&['a', 'b', 'x'], 3);
+        let accs = par_for(cfgs.len(), 8, || (ViolAcc::default(), 0usize), |acc, i| {
+            c06_scripted(&cfgs[i], &ins, &tables, &mut acc.0, &mut acc.1);
+        });
+        for (v, n) in accs {
+            total.viol.merge(v);
+            scripted += n;
+        }
+        fam_json.push(json!({"family": "scripted: Scanner::set_mode before find_iter, second find_iter after a partial first one, mode_name on scanner/iterator/WithPositions", "configurations": cfgs.len(), "inputs": ins.len(), "scripts_run": scripted}));
+    }
     let n_dis = total.viol.total();
     std::mem::take(&mut total.viol).flush(&mut run);
     let mut cov = Map::new();
@@ -346,7 +442,7 @@ pub fn run(prop: &'static str, tier: Tier) -> ! {
         "model_checking",
         cov,
         &[
-            "the snapshot hook exposes every mutable field of FindMatchesImpl/ScannerImpl; equal snapshots (plus equal model state) have equal futures",
+            "the snapshot hook exposes every mutable field of FindMatchesImpl/ScannerImpl; equal snapshots (plus equal model state) have equal futures; the quick tier leaves the simulation scratch buffers (cleared at the start of every match attempt) out of the key, the thorough tier includes them",
             "values outside the specified domains are never generated: set_mode to a missing mode, offsets inside a character, advance_to of a number that is not the end of a just peeked match",
             "position(o) is compared for offsets inside the contiguously scanned prefix only",
         ],
